@@ -31,9 +31,12 @@ func init() {
 	mon.Register(&mon.Property{
 		ID:    "C19",
 		Level: "exploration",
-		Rule: "seeded Swagger 2.0 descriptions (base path, global and per-operation consumes/produces over 9 lower-case media types, 0-4 security definitions, global/per-operation/cleared security with 1-2 scheme alternatives and anonymous, 0-6 operations over 7 methods) loaded with loads.Analyzed; " +
+		Rule: "seeded Swagger 2.0 descriptions (base path, global and per-operation consumes/produces over 9 lower-case media types plus the two form media types on the consumes side, 0-4 security definitions, global/per-operation/cleared security with 1-2 scheme alternatives and anonymous, 0-6 operations over 7 methods; wide descriptions: see below) loaded with loads.Analyzed; " +
 			"per description and JSON-defaults mode the registration sets: exact, every single omission, single additions per category (fresh media type, wildcard media type, media type with a parameter, fresh/other-method/path-case/trailing-slash operation (also substituted for the declared one), fresh/case-variant scheme, authenticator for a declared-but-unused definition), case variants of media types and methods, duplicates, random multi-category deltas, Register* calls made on the same API value AFTER a judged Validate (one superfluous item after a success, the one missing item after a failure, an existing key registered again) followed by another judged Validate, caller-assigned DefaultConsumes/DefaultProduces (a named media type); the root template '/' is declared now and then; " +
 			"oracle = per-category set comparison computed from the generated description; Validate is called twice in a row on every API (same outcome required); every registration set that validates (exact, case variants, duplicates, application/json left to the JSON defaults, ...) is served, after the second Validate, through Context.APIHandler with >= 3 well-formed requests per operation (each consumes/produces type, charset parameter, upper-case media type, Accept forms incl. 'application/json, <declared>;q=0.9' and 'application/json, */*;q=0.8' on operations that produce no JSON, scripted 'does not apply' authenticators) using tagged stub consumers/producers/authenticators; one description in 20 is also validated with one media type in mixed case or with a parameter (outcome classed 'probe:nonlower-description/...', not judged). " +
+			"Consumes lists name multipart/form-data and application/x-www-form-urlencoded now and then (next to other types or alone; an operation whose own consumes list names form types only declares a formData parameter two times in three, and is sent real forms); DELETE and OPTIONS operations declare and are sent bodies too; the anonymous security alternative comes first or last, and an operation that has one also gets a request on which every scheme 'does not apply'; one registration set per description also registers an allow-all authorizer. " +
+			"One description in 50 is WIDE: 24-100 names in one category (operations /bulk/rNN, consumed or produced media types application/vnd.c19.tNN+json, security schemes sNN each used by an operation), with the same registration sets (every single omission included); its first 3 validated APIs are served, 8 sampled operations each. " +
+			"Every request is sent through one of two pipelines built from the SAME validated untyped.API value: the untyped one (Context.APIHandler of NewContext, or middleware.Serve), or - one request in three - the one of a generated server (gen.GeneratedAPI: a RoutableAPI on a Context made by NewRoutableContext whose operation handlers run RouteInfo, Authorize, BindValidRequest with a RequestBinder that parses forms with net/http and decodes bodies with route.Consumer, the handler, Respond); on every second request the handler returns a middleware.Responder that writes the declared status and calls the producer it is handed (judged like a plain value: status, announced media type, the stub producer that wrote; plus: BindValidRequest must have selected a consumer for a body the binder decodes, the Responder must be handed a producer). " +
 			"non-trivial = (description, registration set) with a non-empty delta, distinct by (description hash, delta); and (description, mode, registration kind, operation, request shape) served by a validated API whose description names >= 2 media types",
 		Assumptions: []string{
 			"descriptions name media types in lower case, without parameters or wildcards (the statement's serving clause is restricted to these); case variants are exercised on the registration side, where a media type registered in another letter case counts as that media type and a method in another letter case as that method; paths and scheme names are compared exactly",
@@ -42,6 +45,8 @@ func init() {
 			"the statement fixes neither the order of reported names nor, for the security-definitions category, which of the two lists carries an unused definition: names are compared as sets (duplicates refused), and for that category the union of both lists is compared",
 			"for an operation for which no produces exists at any level (and no JSON default) requests are sent (Accept absent or */*) and the route, the authenticators consulted, the handler reached and the consumer used are judged; only what happens after the handler returned is not (a \"can't find a producer\" failure there is tolerated: no registration could have prevented it; the same failure before the handler ran is a violation). Not judged (counted as skipped): sending a body to an operation for which no consumes exists at any level",
 			"authenticator stubs either succeed with a principal or do not apply; erroring authenticators and authorizers belong to C02",
+			"a request body is well-formed for its media type: a form for the two form media types (with a boundary for multipart), a JSON object otherwise; the stub consumer registered for a form media type accepts the form as it is. An operation with a formData parameter is sent only the form media types its own consumes list names (not the API-wide default media type)",
+			"a description that cannot be loaded (go-openapi/loads is not the code under test) is counted ('harness:description-not-loadable') and dropped, not judged",
 			"a media type the caller assigns to API.DefaultConsumes / DefaultProduces (always one the description names, hence registered) is treated like the JSON default: every operation may be sent it and may answer with it",
 		},
 		MinNontrivial: 3000,
@@ -70,7 +75,10 @@ type Op struct {
 	HasSec   bool     `json:"has_security,omitempty"` // "security" present (possibly [] = clears the global one)
 	Security []Alt    `json:"security,omitempty"`
 	Body     bool     `json:"body,omitempty"` // declares an optional body parameter
-	Code     int      `json:"code"`
+	// Form: declares an optional formData parameter "field" (instead of a body parameter); only on operations
+	// whose own consumes list names form media types only
+	Form bool `json:"form,omitempty"`
+	Code int  `json:"code"`
 }
 
 // Desc is the structural description the Swagger document is rendered from.
@@ -108,6 +116,9 @@ type Reg struct {
 	// type the description names, hence registered) before validating
 	DefaultConsumes string `json:"default_consumes,omitempty"`
 	DefaultProduces string `json:"default_produces,omitempty"`
+	// Authorizer: an authorizer that allows everything is registered as well (not one of the statement's
+	// categories: it changes nothing about validation, and the validated API is served through it)
+	Authorizer bool `json:"authorizer,omitempty"`
 }
 
 // Delta is a list of further Register* calls.
@@ -139,7 +150,17 @@ type Req struct {
 	Accept      string   `json:"accept,omitempty"`
 	Deny        []string `json:"deny,omitempty"` // schemes whose authenticator answers "does not apply"
 	Shape       string   `json:"shape"`
+	// Via: "" = the untyped pipeline (Context.APIHandler over the untyped.API: BindAndValidate, Respond);
+	// "generated" = the way a generated server serves: a RoutableAPI holding the same registrations, on a
+	// Context made by NewRoutableContext, whose operation handlers run RouteInfo, Authorize,
+	// BindValidRequest (with a RequestBinder that decodes with route.Consumer), the handler and Respond
+	Via string `json:"via,omitempty"`
+	// Responder: the operation handler returns a middleware.Responder, which writes the declared status
+	// and calls the producer it is handed (instead of returning a plain value)
+	Responder bool `json:"responder,omitempty"`
 }
+
+const viaGenerated = "generated"
 
 // Case is the replayable unit: one description, one registration set, optionally one request.
 type Case struct {
@@ -223,9 +244,12 @@ func render(d *Desc) []byte {
 		for _, name := range placeholders(op.Path) {
 			params = append(params, map[string]interface{}{"name": name, "in": "path", "required": true, "type": "string"})
 		}
-		if op.Body {
+		if op.Body && !op.Form {
 			params = append(params, map[string]interface{}{"name": "payload", "in": "body", "required": false,
 				"schema": map[string]interface{}{"type": "object"}})
+		}
+		if op.Form {
+			params = append(params, map[string]interface{}{"name": "field", "in": "formData", "required": false, "type": "string"})
 		}
 		if len(params) > 0 {
 			o["parameters"] = params
@@ -522,7 +546,46 @@ type recorder struct {
 	authed   []string // schemes whose authenticator was called
 	handled  []string
 	deny     map[string]bool
+	// set per request
+	responder bool // the operation handlers return a middleware.Responder
+	code      int  // the status such a Responder writes
+	// observed per request
+	responderCalls int
+	nilProducer    bool // the Responder was handed no producer
+	noConsumer     bool // the generated binder found no consumer selected on the route for a body it must decode
+	authorized     int  // calls of the registered authorizer
 }
+
+// result is what an operation handler returns.
+func (rec *recorder) result() interface{} {
+	payload := map[string]interface{}{"ok": true}
+	if !rec.responder {
+		return payload
+	}
+	code := rec.code
+	// what a generated responder does: the status, then the payload through the producer it was given
+	return middleware.ResponderFunc(func(rw http.ResponseWriter, p runtime.Producer) {
+		rec.responderCalls++
+		if p == nil {
+			rec.nilProducer = true
+			return
+		}
+		rw.WriteHeader(code)
+		if err := p.Produce(rw, payload); err != nil {
+			panic(err)
+		}
+	})
+}
+
+var formTypes = []string{runtimeMultipart, runtimeURLEncoded}
+
+// spelt out here: the oracle does not take its vocabulary from the library
+const (
+	runtimeMultipart  = "multipart/form-data"
+	runtimeURLEncoded = "application/x-www-form-urlencoded"
+)
+
+func isFormType(mt string) bool { return mt == runtimeMultipart || mt == runtimeURLEncoded }
 
 func buildAPI(doc *loads.Document, g *Reg, rec *recorder) *untyped.API {
 	api := untyped.NewAPI(doc)
@@ -534,6 +597,12 @@ func buildAPI(doc *loads.Document, g *Reg, rec *recorder) *untyped.API {
 	}
 	if g.DefaultProduces != "" {
 		api.DefaultProduces = g.DefaultProduces
+	}
+	if g.Authorizer {
+		api.RegisterAuthorizer(runtime.AuthorizerFunc(func(*http.Request, interface{}) error {
+			rec.authorized++
+			return nil
+		}))
 	}
 	register(api, &Delta{Consumers: g.Consumers, Producers: g.Producers, Ops: g.Ops, Auths: g.Auths}, rec)
 	return api
@@ -548,6 +617,10 @@ func register(api *untyped.API, g *Delta, rec *recorder) {
 			b, err := io.ReadAll(r)
 			if err != nil {
 				return err
+			}
+			if isFormType(tag) {
+				// the payload sent with a form media type is a form, not JSON: the stub takes it as it is
+				return nil
 			}
 			return json.Unmarshal(b, target)
 		}))
@@ -564,7 +637,7 @@ func register(api *untyped.API, g *Delta, rec *recorder) {
 		name := opName(o.Method, o.Path)
 		api.RegisterOperation(o.Method, o.Path, runtime.OperationHandlerFunc(func(interface{}) (interface{}, error) {
 			rec.handled = append(rec.handled, name)
-			return map[string]interface{}{"ok": true}, nil
+			return rec.result(), nil
 		}))
 	}
 	for _, a := range g.Auths {
@@ -890,8 +963,15 @@ func revalidateAfterToggle(m *mon.M, d *Desc, doc *loads.Document, g *Reg, kc st
 
 // ---- serving a validated API ----
 
+// hasBodyMethod: the methods whose operations declare a body (or form) parameter and are sent one. A
+// request body is not a matter of the method for the library (runtime.HasBody looks at the request), so
+// DELETE and OPTIONS operations take part too.
 func hasBodyMethod(method string) bool {
-	return method == "post" || method == "put" || method == "patch"
+	switch method {
+	case "post", "put", "patch", "delete", "options":
+		return true
+	}
+	return false
 }
 
 func concretePath(d *Desc, op *Op) string {
@@ -946,7 +1026,28 @@ func satisfied(alts []Alt, deny map[string]bool) bool {
 	return false
 }
 
-func serveOne(m *mon.M, d *Desc, g *Reg, h http.Handler, rec *recorder, rq *Req, dhash string, nontrivial bool) {
+// payloadFor is the body sent with a Content-Type: a form for the form media types, JSON otherwise.
+func payloadFor(contentType string) string {
+	mt, params, _ := mime.ParseMediaType(contentType)
+	switch mt {
+	case runtimeURLEncoded:
+		return "field=v1&other=2"
+	case runtimeMultipart:
+		b := params["boundary"]
+		return "--" + b + "\r\nContent-Disposition: form-data; name=\"field\"\r\n\r\nv1\r\n--" + b + "--\r\n"
+	}
+	return `{"a":1}`
+}
+
+func serveOne(m *mon.M, sv *served, rq *Req, nontrivial bool) {
+	d, g, rec, dhash := sv.d, sv.g, sv.rec, sv.dhash
+	if rq.Via != "" && rq.Via != viaGenerated {
+		return
+	}
+	h := sv.handler(m, rq.Via)
+	if h == nil {
+		return
+	}
 	op := &d.Ops[rq.Op]
 	m.Eval(1)
 	cas := &Case{Desc: *d, Reg: *g, Req: rq}
@@ -954,7 +1055,7 @@ func serveOne(m *mon.M, d *Desc, g *Reg, h http.Handler, rec *recorder, rq *Req,
 	mode := modeName(g)
 	var body io.Reader
 	if rq.ContentType != "" {
-		body = strings.NewReader(`{"a":1}`)
+		body = strings.NewReader(payloadFor(rq.ContentType))
 	}
 	req := httptest.NewRequest(strings.ToUpper(op.Method), "http://example.test"+concretePath(d, op), body)
 	if rq.ContentType != "" {
@@ -963,15 +1064,52 @@ func serveOne(m *mon.M, d *Desc, g *Reg, h http.Handler, rec *recorder, rq *Req,
 	if rq.Accept != "" {
 		req.Header.Set("Accept", rq.Accept)
 	}
-	*rec = recorder{deny: map[string]bool{}}
+	*rec = recorder{deny: map[string]bool{}, responder: rq.Responder, code: op.Code}
 	for _, s := range rq.Deny {
 		rec.deny[s] = true
 	}
 	rw := httptest.NewRecorder()
 	pv, st := mon.Catch(func() { h.ServeHTTP(rw, req) })
-	what := fmt.Sprintf("%s %s (Content-Type %q, Accept %q, deny %v) on %s API, registration kind %s", strings.ToUpper(op.Method), req.URL.Path, rq.ContentType, rq.Accept, rq.Deny, mode, g.Kind)
+	how := "untyped pipeline"
+	if rq.Via == viaGenerated {
+		how = "generated-server pipeline: RoutableAPI on NewRoutableContext, RouteInfo/Authorize/BindValidRequest/Respond"
+	}
+	if rq.Responder {
+		how += ", the handler returns a Responder"
+	}
+	what := fmt.Sprintf("%s %s (Content-Type %q, Accept %q, deny %v) on %s API, registration kind %s [%s]", strings.ToUpper(op.Method), req.URL.Path, rq.ContentType, rq.Accept, rq.Deny, mode, g.Kind, how)
 	if nontrivial {
 		m.NT("served|" + dhash + "|" + mode + "|" + kindClass(g.Kind) + "|" + fmt.Sprint(rq.Op) + "|" + rq.Shape)
+	}
+	// the signatures of the untyped pipeline are unchanged; those of the generated-server pipeline say so
+	mode += viaSuffix(rq.Via)
+	if rq.Responder {
+		mode += "/handler-returns-responder"
+	}
+	pipeline := "untyped"
+	if rq.Via == viaGenerated {
+		pipeline = "generated"
+	}
+	if rq.Responder {
+		m.Class("serve:pipeline/" + pipeline + "/responder")
+	} else {
+		m.Class("serve:pipeline/" + pipeline + "/value")
+	}
+	if g.Authorizer {
+		m.Class("serve:with-authorizer")
+	}
+	if mt, _, _ := mime.ParseMediaType(rq.ContentType); isFormType(mt) {
+		if op.Form {
+			m.Class("serve:form-payload/" + mt + "/formData-parameter")
+		} else {
+			m.Class("serve:form-payload/" + mt + "/body-parameter-or-none")
+		}
+	}
+	if rq.ContentType != "" && (op.Method == "delete" || op.Method == "options") {
+		m.Class("serve:body-on-" + op.Method)
+	}
+	if strings.HasSuffix(rq.Shape, "/anonymous-alternative") || strings.Contains(rq.Shape, "/anonymous-alternative/") {
+		m.Class("serve:all-schemes-denied/anonymous-alternative")
 	}
 	// noProd: no media type is declared for the responses of this operation at any level (and there
 	// is no JSON default): no producer could have been registered for it without failing validation.
@@ -996,6 +1134,20 @@ func serveOne(m *mon.M, d *Desc, g *Reg, h http.Handler, rec *recorder, rq *Req,
 			m.Violate("serve/panic-other/"+mode, fmt.Sprintf("%s panicked: %s\n%s", what, msg, st), cas)
 			return
 		}
+	}
+	if rec.noConsumer {
+		m.Violate("serve/no-consumer-selected-for-body/"+mode, fmt.Sprintf("%s: BindValidRequest accepted the request and handed the binder a route without a consumer, although the request carries a body of a media type the operation consumes\ndescription: %s", what, render(d)), cas)
+		return
+	}
+	if rec.nilProducer {
+		if !noProd {
+			m.Violate("serve/responder-handed-no-producer/"+mode, fmt.Sprintf("%s: the Responder the handler returned was written with a nil producer\ndescription: %s", what, render(d)), cas)
+			return
+		}
+		m.Class("serve:no-produces-at-any-level/responder-handed-no-producer")
+	}
+	if rq.Responder && ranRight {
+		m.Class(fmt.Sprintf("serve:responder-written-%d-times", rec.responderCalls))
 	}
 	res := rw.Result()
 	rb, _ := io.ReadAll(res.Body)
@@ -1157,6 +1309,10 @@ func genRequests(r *rand.Rand, d *Desc, g *Reg, idx int) (reqs []Req, skipped, p
 		partly = "no-produces-at-any-level"
 	}
 	cons := withDefault(effConsumes(d, op), defaultOf(g, false))
+	if op.Form {
+		// an operation that takes a form is sent forms only (its own consumes list names form types only)
+		cons = op.Consumes
+	}
 	body := hasBodyMethod(op.Method)
 	if body && len(cons) == 0 {
 		body = false
@@ -1171,15 +1327,20 @@ func genRequests(r *rand.Rand, d *Desc, g *Reg, idx int) (reqs []Req, skipped, p
 			return ""
 		}
 		mt := cons[i%len(cons)]
+		// a multipart payload names its boundary
+		boundary := ""
+		if mt == runtimeMultipart {
+			boundary = "; boundary=c19boundary"
+		}
 		switch shape {
 		case 1:
-			return mt + "; charset=utf-8"
+			return mt + "; charset=utf-8" + boundary
 		case 2:
-			return upperType(mt)
+			return upperType(mt) + boundary
 		case 3:
-			return mt + ";q=1; charset=\"UTF-8\""
+			return mt + ";q=1; charset=\"UTF-8\"" + boundary
 		}
-		return mt
+		return mt + boundary
 	}
 	acceptFor := func(i int, shape int) string {
 		mt := prods[i%len(prods)]
@@ -1234,12 +1395,32 @@ func genRequests(r *rand.Rand, d *Desc, g *Reg, idx int) (reqs []Req, skipped, p
 		rq.Shape = fmt.Sprintf("ct%d-%d/acc%d-%d/deny%d", i%max(1, len(cons)), cs, i%len(prods), as, len(rq.Deny))
 		reqs = append(reqs, rq)
 	}
+	// an operation with an anonymous alternative is served whatever the authenticators say
+	for _, a := range effSecurity(d, op) {
+		if len(a) == 0 && len(schemes) > 0 {
+			reqs = append(reqs, Req{Op: idx, ContentType: ctFor(0, 0), Accept: acceptFor(0, 0), Deny: schemes,
+				Shape: fmt.Sprintf("ct0-0/acc0-0/deny-all-%d/anonymous-alternative", len(schemes))})
+			break
+		}
+	}
 	// an API that knows no JSON at all for this operation, asked by a client that prefers JSON but
 	// admits a declared type: well-formed, to be answered with the declared type
 	if !noProd && !setOf(prods)["application/json"] {
 		i, as := r.Intn(len(prods)), 6+r.Intn(2)
 		reqs = append(reqs, Req{Op: idx, ContentType: ctFor(i, 0), Accept: acceptFor(i, as),
 			Shape: fmt.Sprintf("ct%d-0/acc%d-%d/prefers-json", i%max(1, len(cons)), i, as)})
+	}
+	// the pipeline each request goes through (a third: the one of a generated server) and what the handler
+	// returns (half: a Responder)
+	for k := range reqs {
+		if r.Intn(3) == 0 {
+			reqs[k].Via = viaGenerated
+			reqs[k].Shape += "/generated"
+		}
+		if r.Intn(2) == 0 {
+			reqs[k].Responder = true
+			reqs[k].Shape += "/responder"
+		}
 	}
 	return reqs, skipped, partly
 }
@@ -1272,14 +1453,34 @@ func runDesc(m *mon.M, r *rand.Rand, d *Desc, regs []Reg, serve bool, only *Req)
 	var lerr error
 	pv, st := mon.Catch(func() { doc, lerr = loads.Analyzed(json.RawMessage(raw), "") })
 	if pv != nil || lerr != nil {
-		// the generator is expected to emit loadable documents only
-		m.Violate("harness/description-not-loadable", fmt.Sprintf("loads.Analyzed failed: %v %v\n%s\n%s", pv, lerr, st, raw), &Case{Desc: *d})
+		// the generator is expected to emit loadable documents only; one that is not says nothing about the
+		// property (loading is not the code under test): counted, and the description is dropped. Were it
+		// frequent, the floor on distinct non-trivial cases would make the run inconclusive.
+		m.Class("harness:description-not-loadable")
+		m.Note("descriptions_not_loadable", 1)
+		if m.WantSample() {
+			m.Sample(map[string]interface{}{"not_loadable": json.RawMessage(raw), "error": fmt.Sprintf("%v %v %s", pv, lerr, clipS(st))})
+		}
 		return
 	}
 	m.Note("descriptions", 1)
 	// one crash marker per description (Validate is a function-level call; every variant is
 	// additionally isolated by mon.Catch), one per served API below
 	m.Begin(map[string]interface{}{"desc": d, "registration_sets": len(regs)})
+	servedAPIs := 0
+	wide := isWide(d)
+	if wide {
+		req := required(d, false)
+		for c := range req {
+			if len(req[c]) > wideNames {
+				w := "up-to-32"
+				if len(req[c]) > 32 {
+					w = "more-than-32"
+				}
+				m.Class("description:wide/" + catNames[c] + "/" + w)
+			}
+		}
+	}
 	for i := range regs {
 		g := &regs[i]
 		rec := &recorder{deny: map[string]bool{}}
@@ -1297,23 +1498,36 @@ func runDesc(m *mon.M, r *rand.Rand, d *Desc, regs []Reg, serve bool, only *Req)
 			m.Class("serve:validated-under-in-force-reading-only")
 			continue
 		}
-		var h http.Handler
-		pv, st := mon.Catch(func() { h = middleware.NewContext(doc, api, nil).APIHandler(nil) })
-		if pv != nil {
-			m.Violate("serve/handler-construction-panic/"+modeName(g), fmt.Sprintf("APIHandler panicked: %v\n%s", pv, st), &Case{Desc: *d, Reg: *g})
+		// a description with dozens of names in one category: the first few validated APIs are served, each
+		// with a sample of its operations (budget)
+		if only == nil && wide && servedAPIs >= wideServeAPIs {
+			m.Class("serve:wide-description/api-not-served")
 			continue
+		}
+		servedAPIs++
+		sv := &served{d: d, g: g, doc: doc, api: api, rec: rec, dhash: dhash}
+		if only == nil && sv.handler(m, "") == nil {
+			continue // the construction of the untyped handler is judged for every validated API
 		}
 		m.Note("validated_apis_served", 1)
 		m.Class("served-api:" + kindClass(g.Kind))
 		nontrivial := namedMediaTypes(d) >= 2
 		if only != nil {
 			if only.Op >= 0 && only.Op < len(d.Ops) {
-				serveOne(m, d, g, h, rec, only, dhash, nontrivial)
+				serveOne(m, sv, only, nontrivial)
 			}
 			continue
 		}
 		m.Begin(&Case{Desc: *d, Reg: *g})
+		idxs := make([]int, 0, len(d.Ops))
 		for idx := range d.Ops {
+			idxs = append(idxs, idx)
+		}
+		if len(idxs) > wideServeOps {
+			idxs = r.Perm(len(d.Ops))[:wideServeOps]
+			sort.Ints(idxs)
+		}
+		for _, idx := range idxs {
 			reqs, skipped, partly := genRequests(r, d, finalReg(g), idx)
 			if skipped != "" {
 				m.Note("skipped:"+skipped, 1)
@@ -1323,7 +1537,7 @@ func runDesc(m *mon.M, r *rand.Rand, d *Desc, regs []Reg, serve bool, only *Req)
 				m.Note("judged-up-to-the-handler:"+partly, 1)
 			}
 			for k := range reqs {
-				serveOne(m, d, g, h, rec, &reqs[k], dhash, nontrivial)
+				serveOne(m, sv, &reqs[k], nontrivial)
 			}
 		}
 	}
@@ -1369,6 +1583,30 @@ func genMedia(r *rand.Rand, pAbsent int) []string {
 	return pickSome(r, pool, 1+r.Intn(3))
 }
 
+// genConsumes: as genMedia, and now and then the form media types (requests only: consumes lists)
+func genConsumes(r *rand.Rand, pAbsent int) []string {
+	l := genMedia(r, pAbsent)
+	if l == nil {
+		return nil
+	}
+	switch r.Intn(12) {
+	case 0: // forms only
+		return pickSome(r, formTypes, 1+r.Intn(2))
+	case 1, 2: // forms next to other types
+		return append(l, pickSome(r, formTypes, 1+r.Intn(2))...)
+	}
+	return l
+}
+
+func allForms(l []string) bool {
+	for _, e := range l {
+		if !isFormType(e) {
+			return false
+		}
+	}
+	return len(l) > 0
+}
+
 func genAlts(r *rand.Rand, defs []SecDef) []Alt {
 	n := 1 + r.Intn(2)
 	var out []Alt
@@ -1386,14 +1624,19 @@ func genAlts(r *rand.Rand, defs []SecDef) []Alt {
 		out = append(out, a)
 	}
 	if r.Intn(8) == 0 {
-		out = append(out, Alt{}) // anonymous alternative
+		// anonymous alternative, after or before the others
+		if r.Intn(3) == 0 {
+			out = append([]Alt{{}}, out...)
+		} else {
+			out = append(out, Alt{})
+		}
 	}
 	return out
 }
 
 func genDesc(r *rand.Rand) *Desc {
 	d := &Desc{BasePath: basePaths[r.Intn(len(basePaths))]}
-	d.Consumes = genMedia(r, 35)
+	d.Consumes = genConsumes(r, 35)
 	d.Produces = genMedia(r, 30)
 	ndefs := r.Intn(5)
 	if r.Intn(3) == 0 {
@@ -1474,7 +1717,7 @@ func genDesc(r *rand.Rand) *Desc {
 		if r.Intn(5) == 0 {
 			op.Code = 201
 		}
-		op.Consumes = genMedia(r, 55)
+		op.Consumes = genConsumes(r, 55)
 		op.Produces = genMedia(r, 55)
 		if len(d.SecDefs) > 0 {
 			switch r.Intn(6) {
@@ -1486,6 +1729,10 @@ func genDesc(r *rand.Rand) *Desc {
 			}
 		}
 		op.Body = hasBodyMethod(method) && r.Intn(3) > 0
+		if hasBodyMethod(method) && allForms(op.Consumes) && r.Intn(3) > 0 {
+			// a form operation: a formData parameter instead of a body parameter
+			op.Body, op.Form = false, true
+		}
 		d.Ops = append(d.Ops, op)
 	}
 	// most descriptions use every declared definition (an unused one fails validation whatever is registered)
@@ -1576,9 +1823,20 @@ func without(l []string, i int) []string {
 }
 
 func freshMedia(r *rand.Rand, named strset) string {
-	for _, i := range r.Perm(len(mediaTypes)) {
-		if !named[mediaTypes[i]] {
-			return mediaTypes[i]
+	return freshFrom(r, named, mediaTypes)
+}
+
+// freshConsumerMedia: a media type no consumes list of the description names, the form types included.
+func freshConsumerMedia(r *rand.Rand, named strset) string {
+	return freshFrom(r, named, consumerTypes)
+}
+
+var consumerTypes = append(append([]string{}, mediaTypes...), formTypes...)
+
+func freshFrom(r *rand.Rand, named strset, pool []string) string {
+	for _, i := range r.Perm(len(pool)) {
+		if !named[pool[i]] {
+			return pool[i]
 		}
 	}
 	return "application/x-extra"
@@ -1659,7 +1917,7 @@ func variants(r *rand.Rand, d *Desc, nmulti int) []Reg {
 	// single additions
 	{
 		g := cloneReg(base, "addition:consumer")
-		g.Consumers = append(g.Consumers, freshMedia(r, named[catConsumes]))
+		g.Consumers = append(g.Consumers, freshConsumerMedia(r, named[catConsumes]))
 		one(g)
 		g = cloneReg(base, "addition:producer")
 		g.Producers = append(g.Producers, freshMedia(r, named[catProduces]))
@@ -1743,6 +2001,7 @@ func variants(r *rand.Rand, d *Desc, nmulti int) []Reg {
 		for i := range g.Ops {
 			g.Ops[i].Method = mixCase(r, g.Ops[i].Method)
 		}
+		g.Authorizer = k == 1
 		both(g)
 	}
 	// duplicates: registering twice (second time in another case) is idempotent
@@ -1768,7 +2027,7 @@ func variants(r *rand.Rand, d *Desc, nmulti int) []Reg {
 		g.Then = &Delta{}
 		switch cat {
 		case 0:
-			g.Then.Consumers = []string{freshMedia(r, named[catConsumes])}
+			g.Then.Consumers = []string{freshConsumerMedia(r, named[catConsumes])}
 		case 1:
 			g.Then.Producers = []string{freshMedia(r, named[catProduces])}
 		case 2:
@@ -1858,7 +2117,7 @@ func variants(r *rand.Rand, d *Desc, nmulti int) []Reg {
 					g.Consumers = without(g.Consumers, r.Intn(len(g.Consumers)))
 				}
 			case 1:
-				g.Consumers = append(g.Consumers, mixCase(r, freshMedia(r, named[catConsumes])))
+				g.Consumers = append(g.Consumers, mixCase(r, freshConsumerMedia(r, named[catConsumes])))
 			case 2:
 				if len(g.Producers) > 0 {
 					g.Producers = without(g.Producers, r.Intn(len(g.Producers)))
@@ -1966,6 +2225,9 @@ func run(m *mon.M) {
 	n := m.N(700, 7000)
 	for i := 0; i < n; i++ {
 		d := genDesc(r)
+		if i%wideEvery == wideEvery/2 {
+			d = genWideDesc(r)
+		}
 		regs := variants(r, d, 4)
 		runDesc(m, r, d, regs, true, nil)
 		if i%20 == 7 {
